@@ -276,17 +276,52 @@ def run_ticks(houses, ticks, period=0.125):
     return trace
 
 
-def build(text, ticks=0, limit=20.0, acts=True, name="build.flo"):
-    """Builder.build on `text` (real dispatch); canonical dump; optional bounded run"""
+class _Sink(object):
+    """a console file that discards what is written"""
+    closed = False
+    name = "<sink>"
+
+    def write(self, msg):
+        pass
+
+    def flush(self):
+        pass
+
+
+def build(text, ticks=0, limit=20.0, acts=True, name="build.flo", files=None, verbosity=0):
+    """Builder.build on `text` (real dispatch); canonical dump; optional bounded run.
+    files: {name: text} written next to the script (targets of `load`); verbosity: console level during the build
+    (0 mute … 4 profuse; the output is discarded, the printing code runs)"""
     import traceback
     core.import_ioflo()
     from ioflo.base import building, excepting
+    from ioflo.aid import consoling
     res = BuildResult()
-    path = write_script(text, name)
+    if files:
+        import shutil
+        d = os.path.join(scratch_dir(), "btree")
+        shutil.rmtree(d, ignore_errors=True)
+        os.makedirs(d)
+        for fname, ftext in files.items():
+            with open(os.path.join(d, fname), "w", encoding="utf-8", newline="") as f:
+                f.write(ftext)
+        path = os.path.join(d, name)
+        with open(path, "w", encoding="utf-8", newline="") as f:
+            f.write(text)
+    else:
+        path = write_script(text, name)
     b = building.Builder(fileName=path)
+    con = consoling.getConsole()
+    old = (con._verbosity, con._file)
+    if verbosity:
+        con._verbosity, con._file = verbosity, _Sink()
     try:
         with time_limit(limit):
-            ok = b.build()
+            if verbosity:       # some of the printing code uses print()
+                with contextlib.redirect_stdout(_Sink()):
+                    ok = b.build()
+            else:
+                ok = b.build()
     except core.HarnessTimeout:
         raise
     except Exception as ex:
@@ -296,6 +331,14 @@ def build(text, ticks=0, limit=20.0, acts=True, name="build.flo"):
         res.where = tb[-1].name if tb else ""
         res.frames = [(os.path.basename(f.filename), f.name, f.lineno) for f in tb]
         return res
+    finally:
+        con._verbosity, con._file = old
+        for f in list(getattr(b, "files", [])) + [getattr(b, "currentFile", None)]:
+            try:
+                if f is not None and not f.closed:      # a build left inside a loaded file: do not leak descriptors
+                    f.close()
+            except Exception:   # noqa
+                pass
     res.status = "ok" if ok else "failed"
     if ok:
         res.houses = b.houses
@@ -488,6 +531,32 @@ class ProgGen(object):
 
 def gen_program(rng):
     return ProgGen(rng).program()
+
+
+def split_tree(rng, prog):
+    """split a program over files: {name: program}, the main program; `load` commands inserted at random command
+    boundaries (first, middle, last command of the loading file), loaded files may load further files or be empty"""
+    files = {}
+    counter = [0]
+
+    def split(cmds, depth):
+        if depth >= 3 or rng.random() < (0.25 if depth else 0.0):
+            return list(cmds)
+        out = []
+        k = rng.randrange(1, 3)
+        cuts = sorted(rng.randrange(0, len(cmds) + 1) for _ in range(2 * k))
+        pos = 0
+        for a, b in zip(cuts[::2], cuts[1::2]):
+            out += cmds[pos:a]
+            counter[0] += 1
+            name = "f%d.flo" % counter[0]
+            files[name] = split(cmds[a:b], depth + 1)
+            out.append(["load", name])
+            pos = b
+        out += cmds[pos:]
+        return out
+    main = split(prog, 0)
+    return files, main
 
 
 def canonical_text(prog):
